@@ -31,7 +31,8 @@ TRUSTED = [
     "numbers within 15 significant digits, integers within 2^53; datetimes in UTC; ASCII names",
 ]
 ASSUMPTIONS = [
-    "values are those obtained by decoding JSON documents into the generated types; `differs from the builder's defaults` is judged per top-level field of the built object, up to nil == empty collection",
+    "values are those obtained by decoding JSON documents into the generated types; `differs from the builder's defaults` is judged per top-level field of the built object, up to nil == empty collection (list elements in order)",
+    "targeted scenarios (vlib/gencode_bld.py scenarios) come with their own documents: for options that also write a constant (add_assignment) only values the builder API can express are sampled; lists of unions exposed as per-branch appending options are outside the Coq model (explicit Unmodelled) and judged on the real output only",
 ]
 
 
@@ -115,6 +116,7 @@ def run(ctx, verdict, replay=None, model_ok=True):
     thorough = ctx.tier == "thorough"
     batch = gb.BldBatch(ctx, "c14", converters=True, python=False)
     plan = []          # (sid, Src schema or None)
+    scen = {}          # sid -> scenario (documents given)
     replay_jobs = []
     if replay:
         rp = json.load(open(replay))
@@ -132,6 +134,13 @@ def run(ctx, verdict, replay=None, model_ok=True):
                 text = c09.add_defaults(rng, srcgen.render(s, fmt), fmt)
                 batch.add(s, fmt, veneers=c09.gen_veneers(rng, s) if rng.random() < 0.6 else None, text=text)
                 plan.append((s["pkg"], s))
+        # targeted shapes (vlib/gencode_bld.py scenarios): their documents are part of the scenario
+        for rep in range(3 if thorough else 1):
+            for sc in gb.scenarios(rng, prefix="t%d" % rep):
+                s = srcgen.project(sc["schema"], sc["fmt"])
+                batch.add(s, sc["fmt"], veneers=sc["veneers"])
+                plan.append((s["pkg"], s))
+                scen[s["pkg"]] = sc
     batch.generate()
     batch.build_go_driver()
     gen_hist = {}
@@ -179,6 +188,12 @@ def run(ctx, verdict, replay=None, model_ok=True):
                 if name not in struct_defs or ir.summary.get((b["For"]["SelfRef"]["ReferredPkg"], name), {}).get("kind") != "struct":
                     continue
                 n = per if name == s["root"] else max(2, per // 3)
+                given = (scen.get(sid) or {}).get("docs", {}).get(name)
+                if given:
+                    for d in given:
+                        samples.append({"sid": sid, "builder": b, "doc": srcgen.dumps(d), "kind": "scenario:" + scen[sid]["shape"]})
+                    if scen[sid]["shape"] == "shared-constant":
+                        continue      # an option that also writes a constant cannot express every value: documents are chosen
                 for _ in range(n):
                     try:
                         d = dg.valid(name)
